@@ -331,7 +331,7 @@ func genForm(t *rapid.T, label string) form {
 func TestCheckRandom(t *testing.T) {
 	s := harness.NewSub("random-singles-and-ranges",
 		"random sentences of the grammar: any keyword/case/shape/month spelling, day 1..last valid day, years 1..9999, 1..4 spaces between tokens; half of the cases are ranges with the 4 'between' words x 3 'and' words x case over two such dates; non-trivial = all (each sentence's meaning is known by construction), distinct by sentence")
-	s.Rapid(t, harness.Share(harness.Pick(150000, 3000000)), 40, func(rt *rapid.T) {
+	s.Rapid(t, harness.Share(harness.Pick(150000, 20000000)), 40, func(rt *rapid.T) {
 		c := dateCase{Left: genForm(rt, "l")}
 		cls := []string{"single"}
 		if rapid.Bool().Draw(rt, "range") {
